@@ -20,10 +20,11 @@ use serde_json::{Value, json};
 use std::collections::HashMap;
 use std::path::{Path, PathBuf};
 
-const STRONG: [&str; 4] = ["Corr3ct-H0rse_#1", "Zebra!Qu1et-77x", "T1ger&Lily-0range", "corr3ct-h0rse_#1"];
+// the last entries are near misses of earlier ones (surrounding whitespace): distinct passwords all the same
+const STRONG: [&str; 6] = ["Corr3ct-H0rse_#1", "Zebra!Qu1et-77x", "T1ger&Lily-0range", "corr3ct-h0rse_#1", "Corr3ct-H0rse_#1 ", " Zebra!Qu1et-77x"];
 const WEAK: [&str; 3] = ["abc", "Passw0rd-Secret!9", "aaaaaaaaaaaa"];
 
-/// password token: 1..=4 strong, 5..=7 weak
+/// password token: 1..=6 strong, 7..=9 weak
 fn pw(tok: usize) -> SecureString {
     let s = if tok <= STRONG.len() { STRONG[tok - 1] } else { WEAK[tok - 1 - STRONG.len()] };
     SecureString::from_plain_str(s).unwrap_or_else(|e| {
@@ -247,6 +248,30 @@ fn history(c: &mut Ctx, rng: &mut impl Rng, ops: u64, root: &Path, seg: u64) {
                 let sm = c.open(&sstore);
                 let op: Value;
                 let mut guess_new = cur;
+                // real crash images: the scratch directory is copied at every verif-hooks crash point of the update
+                let hook_images: std::sync::Arc<std::sync::Mutex<Vec<(&'static str, PathBuf)>>> = Default::default();
+                {
+                    let hi = hook_images.clone();
+                    let sc = scratch.clone();
+                    let root2 = dir.clone();
+                    saorsa_core::verif_hooks::set_crash_callback(Some(std::sync::Arc::new(move |name: &'static str| {
+                        if !name.starts_with("keystore.") {
+                            return;
+                        }
+                        let mut g = hi.lock().expect("hook images");
+                        let dst = root2.join(format!("hook{}", g.len()));
+                        let _ = std::fs::remove_dir_all(&dst);
+                        let _ = std::fs::create_dir_all(&dst);
+                        if let Ok(rd) = std::fs::read_dir(&sc) {
+                            for e in rd.flatten() {
+                                if e.path().is_file() {
+                                    let _ = std::fs::copy(e.path(), dst.join(e.file_name()));
+                                }
+                            }
+                        }
+                        g.push((name, dst));
+                    })));
+                }
                 if rng.gen_bool(0.6) {
                     let id = rng.gen_range(1..=3usize);
                     let p = pick_pw(rng, cur, &formers);
@@ -271,6 +296,13 @@ fn history(c: &mut Ctx, rng: &mut impl Rng, ops: u64, root: &Path, seg: u64) {
                     op = json!({"kind":"ChangePw","old":old,"new":new});
                 }
                 drop(sm);
+                saorsa_core::verif_hooks::set_crash_callback(None);
+                let hooks: Vec<(&'static str, PathBuf)> = hook_images.lock().expect("hook images").clone();
+                for (point, hdir) in hooks {
+                    let pr = probe(c, &hdir.join("store.enc"));
+                    c.t.ev(json!({"ev":"CrashProbe","op":op,"point":point,"probe":pr,"adopt":false}));
+                    let _ = std::fs::remove_dir_all(&hdir);
+                }
                 let Ok(new_bytes) = std::fs::read(&sstore) else { continue };
                 let cut = if new_bytes.is_empty() { 0 } else { rng.gen_range(0..new_bytes.len()) };
                 let images: [(&str, &[u8], Option<&[u8]>); 4] = [
